@@ -1056,6 +1056,12 @@ class Gen:
     elif fits and r < 0.7: e = ["ite", ["cmp", rng.choice(["lt", "ge", "eq"]), self._explicit(w, list(srcs), 1), ["lv", var]], core, self._explicit(w, list(srcs), 1)]
     else: e = core
     loop = ["for", var, start, stop, step, [["=", tgt, e]]]
+    if step < 0 and self.k.get("for_full_desc"):
+      # count down to index 0 inclusive ( range(n-1, -1, -1) ), or in steps of two with the other elements assigned one by one
+      st2 = rng.choice([-1, -2, -2, -3])          # the type checker wants a non-negative end value: stop at 0 (exclusive)
+      loop = ["for", var, n - 1, 0, st2, [["=", tgt, e]]]
+      extra = [["=", concretize(tgt, {var: j}), subst_expr(e, {var: j})] for j in range(n) if j not in range(n - 1, 0, st2)]
+      return ["seq", extra + [loop]] if extra else loop
     if step < 0:
       return ["if", ["c", 1, 1], [["=", concretize(tgt, {var: 0}), subst_expr(e, {var: 0})], loop], []] if False else \
              ["seq", [["=", concretize(tgt, {var: 0}), subst_expr(e, {var: 0})], loop]]
